@@ -20,6 +20,12 @@ pub fn check_protocol(trace: &[TraceOp], out: &mut RunOut) {
     // last release / transfer performed by each thread
     let mut last_release: HashMap<String, String> = HashMap::new();
     let mut last_transfer_by: HashMap<String, usize> = HashMap::new();
+    // threads that are unwinding from a genuine user panic (between the harness markers)
+    let mut unwinding_panic: HashMap<String, bool> = HashMap::new();
+    // per thread: stack of executing bodies (true = fixpoint function), reader index, cancelled?
+    let mut stacks: HashMap<String, Vec<bool>> = HashMap::new();
+    let mut reader_thread: HashMap<String, String> = HashMap::new();
+    let mut cancelled: HashMap<String, bool> = HashMap::new();
     let depends_on = |edges: &HashMap<String, (String, String)>, from: &str, to: &str| -> bool {
         let mut p = from.to_string();
         let mut n = 0;
@@ -83,8 +89,55 @@ pub fn check_protocol(trace: &[TraceOp], out: &mut RunOut) {
                 Some(r) => out.viol("proto_wrong_result", i, format!("{thread} was woken with {r} but resumed with {result}")),
                 None => out.viol("proto_resume_without_wakeup", i, format!("{thread} resumed with {result} without having been woken")),
             },
-            TraceOp::Release { by, result, .. } => {
+            TraceOp::Release { by, result, key } => {
+                // outcome must correspond to how the computation ended: a claim released while
+                // its thread unwinds from a user panic is reported as Panicked
+                if unwinding_panic.get(by).copied().unwrap_or(false) {
+                    out.bump("proto_releases_while_panicking");
+                    // the claim released now belongs to the innermost body still on the stack
+                    let st = stacks.entry(by.clone()).or_default();
+                    st.pop();
+                    let inside_fixpoint = st.iter().any(|f| *f);
+                    let cancel_pending = cancelled.get(by).copied().unwrap_or(false);
+                    // a pending, non-deferred local cancellation legitimately turns the outcome into
+                    // Cancelled; inside fixpoint execution cancellation is deferred, so a user panic
+                    // there must be reported as Panicked
+                    let must_be_panicked = !cancel_pending || inside_fixpoint;
+                    if must_be_panicked && result != "Panicked" {
+                        out.viol("proto_wrong_release_outcome", i, format!("{by} released {key} with {result} while unwinding from a user panic (cancel pending: {cancel_pending}, inside fixpoint: {inside_fixpoint}): waiters must see Panicked"));
+                    }
+                }
                 last_release.insert(by.clone(), result.clone());
+            }
+            TraceOp::Mark { by, what } => {
+                match what.as_str() {
+                    "user_panic" => {
+                        unwinding_panic.insert(by.clone(), true);
+                    }
+                    "enter:fix" => stacks.entry(by.clone()).or_default().push(true),
+                    "enter:other" => stacks.entry(by.clone()).or_default().push(false),
+                    "exit" => {
+                        stacks.entry(by.clone()).or_default().pop();
+                    }
+                    "request_end" => {
+                        unwinding_panic.insert(by.clone(), false);
+                        stacks.remove(by);
+                        // the token is reset when the outermost call returns or unwinds
+                        cancelled.insert(by.clone(), false);
+                    }
+                    w if w.starts_with("reader_start:") => {
+                        reader_thread.insert(w["reader_start:".len()..].to_string(), by.clone());
+                        unwinding_panic.insert(by.clone(), false);
+                        stacks.remove(by);
+                        cancelled.insert(by.clone(), false);
+                    }
+                    w if w.starts_with("cancel:") => {
+                        if let Some(t) = reader_thread.get(&w["cancel:".len()..]) {
+                            cancelled.insert(t.clone(), true);
+                        }
+                    }
+                    _ => {}
+                }
             }
             TraceOp::Transfer { by, .. } => {
                 out.bump("proto_transfers");
